@@ -66,7 +66,7 @@ def scope_defs(repo, nmax, with_corpus=True, nmin=1, fork_depth=3):
 
 
 def extended_defs(nb, staged=True, bunched=True, leadloop=None,
-                  stretched=(4, 10)):
+                  stretched=(4, 10), widths=(4, 5, 6)):
     """definitions beyond fragment F whose job sets the tool must handle just
     the same (general statements of C01/C05): bunched forks (as in the
     corpus' bunched_* cases) with <= nb events and the staged-merge family"""
@@ -81,6 +81,9 @@ def extended_defs(nb, staged=True, bunched=True, leadloop=None,
         # two or three separate break XORs in one loop body (inside F, but
         # >= 8 events)
         out += [("FT", d) for d in fragment.sibling_breaks_family()]
+    if staged and widths:
+        # forks with more branches than F allows
+        out += [("FW", d) for d in fragment.wide_fork_family(widths)]
     if stretched:
         # long sequences: the block structures of F_n with every event drawn
         # out to a chain, so that fork, merge and loop ends lie far apart
